@@ -68,6 +68,20 @@ pub fn blake2_seed32(parts: &[&[u8]]) -> [u8; 32] {
     let d = h.finalize();
     d[..32].try_into().unwrap()
 }
+thread_local! {
+    static CASE_SALT: std::cell::Cell<u64> = std::cell::Cell::new(0);
+}
+/// A hash of the case now being evaluated (canonical JSON: keys sorted), from which the L2 runner derives the option
+/// dimensions that are not part of any case structure (`-v`, `--http-timeout`, `--http-header`). A replay computes the
+/// same value from the replay file's "case", so it makes the same choices.
+pub fn case_salt() -> u64 {
+    CASE_SALT.with(|c| c.get())
+}
+pub fn set_case_salt_from<T: Serialize>(case: &T) {
+    let v = serde_json::to_value(case).map(|v| v.to_string()).unwrap_or_default();
+    CASE_SALT.with(|c| c.set(blake2_64(&[v.as_bytes()])));
+}
+
 pub fn key_of<T: Serialize>(v: &T) -> u64 {
     let s = serde_json::to_vec(v).unwrap();
     blake2_64(&[&s])
@@ -438,6 +452,9 @@ impl WorkerCtx {
         if self.announce_path.is_some() {
             self.announce(&json!({"variant": variant, "case": serde_json::to_value(case).unwrap()}));
         }
+        if !matches!(self.prop.as_str(), "C03" | "C09" | "C10") {
+            set_case_salt_from(case);
+        }
         let r = guarded(|| f(&mut rec));
         match r {
             Ok(()) => {
@@ -505,6 +522,7 @@ impl WorkerCtx {
         };
         let rng = TestRng::from_seed(RngAlgorithm::ChaCha, &self.rng_seed(variant));
         let mut runner = TestRunner::new_with_rng(cfg, rng);
+        let salted = !matches!(self.prop.as_str(), "C09" | "C10");
         let me = RefCell::new(&mut *self);
         let counting = RefCell::new(true);
         let last_fail: RefCell<Option<Fail>> = RefCell::new(None);
@@ -515,6 +533,9 @@ impl WorkerCtx {
                 if me.announce_path.is_some() {
                     me.announce(&json!({"variant": variant, "case": serde_json::to_value(&case).unwrap()}));
                 }
+            }
+            if salted {
+                set_case_salt_from(&case);
             }
             let r = guarded(|| f(&case, &mut rec));
             let mut me = me.borrow_mut();
@@ -564,6 +585,7 @@ impl WorkerCtx {
             Err(TestError::Fail(reason, minimal)) => {
                 // Re-run the minimal case once to get its own failure record (message/panic).
                 let mut rec = CaseRec::default();
+                set_case_salt_from(&minimal);
                 let fail = match guarded(|| f(&minimal, &mut rec)) {
                     Err(fl) => fl,
                     Ok(()) => last_fail
@@ -721,6 +743,7 @@ pub fn replay_main(prop: &dyn Prop, path: &Path) -> i32 {
             std::process::exit(1);
         });
     }
+    set_case_salt_from(&v["case"]);
     let r = guarded(|| prop.replay(&mut cx, &variant, &v["case"]));
     match r {
         Ok(()) => {
